@@ -26,9 +26,7 @@ import (
 // as the expected message and whose response must come back equal).
 func httpBodyCases(c *ctx, n int) {
 	r := c.r
-	wasPoison := vanguard.VerifPoolPoison.Load()
 	vanguard.VerifPoolPoison.Store(true)
-	defer vanguard.VerifPoolPoison.Store(wasPoison)
 
 	contentTypes := []string{"application/octet-stream", "text/plain", "image/png", "application/x-custom+thing", "text/html; charset=utf-8", "application/json"}
 	sizes := []int{0, 1, 17, 600, 1500, 5000}
